@@ -111,13 +111,19 @@ func (p *ProjectRunner) Run() error {
 		verifYield("Run.loop", proc.ReplicaName)
 		// a shutdown requested while the project is still starting up must
 		// not be followed by the launch of the remaining processes
+		p.startMutex.Lock()
 		p.shutDownMutex.Lock()
 		if p.isShuttingDown {
 			p.shutDownMutex.Unlock()
+			p.startMutex.Unlock()
 			break
 		}
-		p.runProcess(&newConf)
+		// a start request may have been served already for this process
+		if p.getRunningProcess(newConf.ReplicaName) == nil {
+			p.runProcess(&newConf)
+		}
 		p.shutDownMutex.Unlock()
+		p.startMutex.Unlock()
 	}
 	p.waitGroup.Wait()
 	log.Info().Msg("Project completed")
